@@ -253,6 +253,7 @@ type bEnv struct {
 	fs     *h.FakeServer
 	relay  *faultRelay
 	cli    *h.Client
+	status *statusProbe
 	kinds  []string
 	timed  int
 	healed int
@@ -396,6 +397,7 @@ transport.heartbeatTimeout = %d
 		return
 	}
 	defer e.cli.Close()
+	e.status = &statusProbe{cli: e.cli, names: e.names}
 	if strings.HasPrefix(phases[0], "refused-at-start:") {
 		cnt, _ := strconv.Atoi(strings.SplitN(phases[0], ":", 2)[1])
 		if !e.afterRefusals("refused-at-start", t0, cnt) {
@@ -425,12 +427,7 @@ func (e *bEnv) healthy(after int64) bool {
 	if s == nil || s.LoginAt < after || !s.has(e.names) {
 		return false
 	}
-	for _, n := range e.names {
-		if e.cli.ProxyPhase(n) != "running" {
-			return false
-		}
-	}
-	return true
+	return e.status.allRunning() == ""
 }
 
 // awaitRecovery: from `heal` on the server is reachable and benign; a session logged in at or after `after`
@@ -444,14 +441,9 @@ func (e *bEnv) awaitRecovery(kind string, after, heal int64) bool {
 		if s != nil {
 			have, sn = s.view().regs, s.N
 		}
-		notRunning := 0
-		for _, n := range e.names {
-			if e.cli.ProxyPhase(n) != "running" {
-				notRunning++
-			}
-		}
-		e.c.Violation("no-recovery-after-"+kind, "mux=%v, %d proxies, heartbeat %d/%d: %.1f s after the scripted server became reachable and benign again frpc has not re-registered everything (logins seen since: %d, last session #%d holds %d of %d registrations, %d proxies not 'running' at the client)",
-			e.mux, len(e.names), e.pair.I, e.pair.T, secs(now-heal), len(e.fc.logins(heal, now, "")), sn, have, len(e.names), notRunning)
+		clientSays := e.status.allRunning()
+		e.c.Violation("no-recovery-after-"+kind, "mux=%v, %d proxies, heartbeat %d/%d: %.1f s after the scripted server became reachable and benign again frpc has not re-registered everything (logins seen since: %d, last session #%d holds %d of %d registrations; %s)",
+			e.mux, len(e.names), e.pair.I, e.pair.T, secs(now-heal), len(e.fc.logins(heal, now, "")), sn, have, len(e.names), clientSays)
 		return false
 	}
 	if kind != "start" {
